@@ -475,7 +475,8 @@ fn run_case(line: &str, sink: &mut Sink, tags: &str) -> String {
         sink.count(&format!("writer-rejects:{}", t[1]));
     }
     for o in oracle {
-        sink.oracle_failure(line.to_string(), o, &format!("{}{}", tags, finding));
+        // one oracle failure = one line: array Debug output is multi-line
+        sink.oracle_failure(line.to_string(), o.replace(['\n', '\r', '\t'], " "), &format!("{}{}", tags, finding));
     }
     ans
 }
